@@ -73,7 +73,7 @@ def configs(tier):
                 out.append(dict(ped=name, step="swap", pair=pi, lo=lo, hi=min(n, lo + CHUNK)))
         out.append(dict(ped=name, step="blankets"))
     out.append(dict(ped="founder2", step="lemma"))
-    for cls in ("pedigree-gibbs", "pedigree-mh"):  # PedigreeCallingMCMC.fit -> greedy_caller / mcmc_sampler
+    for cls in ("pedigree-gibbs", "pedigree-mh", "pedigree-gibbs-flat"):  # PedigreeCallingMCMC.fit -> greedy_caller / mcmc_sampler (-flat: default frequencies)
         out.append(dict(group="class-wiring", cls=cls, ped="founder2", step="wiring"))
     for lp in ("pedigree-loop", "pedigree-sweep"):  # mcmc_sampler -> compound_step / pair swap; compound_step -> every (sample, copy) once
         out.append(dict(group="loop-wiring", loop=lp, ped="founder2", step="wiring"))
